@@ -64,7 +64,7 @@ class Real:
         return float(self.text)
 
     def __repr__(self) -> str:
-        return "Real(%s)" % self.text
+        return "Real(%r)" % self.text
 
 
 class HexStr(bytes):
